@@ -107,7 +107,7 @@ def check(run: Run):
     )
     run.cov["exhaustive"] = False
     run.assumptions += [
-        "cells are instantiated with the symbols chosen by Sym() in Alignment.tla (4 canonical, 11 degenerate nucleotide symbols, '-' the only gap symbol; '?' and '.' are not used)",
+        "cells are instantiated with the symbols chosen by Sym() in Alignment.tla (4 canonical, 11 degenerate nucleotide symbols, the gap '-' and the missing-data symbol '?'; '.' is not used)",
         "argument families are the small ones listed in Alignment.tla (ColLists, RowLists, Thresholds, Preds, ReplLocs, Perms)",
         "read-only methods are compared with a new object of the same class built from the spec rows, on a seeded sample of the visited results",
         "strided slices of the annotatable Alignment raise NotImplementedError by design and are counted as unsupported",
